@@ -21,7 +21,11 @@ TASK_TIMEOUT_S = int(os.environ.get("PYVC_TASK_TIMEOUT_S", "900"))
 class Task:
     """one verification task = one function (or lemma) under contract, with its harness"""
 
-    def __init__(self, name, prop, fn, functions=(), expect=(), twin=None, covers=(), assumptions=(), kind="contract", bounded=None):
+    def __init__(self, name, prop, fn, functions=(), expect=(), twin=None, covers=(), assumptions=(), kind="contract", bounded=None,
+                 path_cap=None, timeout_s=None, fork=False):
+        self.fork = fork                     # fork-based depth-first exploration (see world.ForkCtl)
+        self.path_cap = path_cap             # per-task overrides of the exploration budgets (large closed explorations)
+        self.timeout_s = timeout_s
         self.name = name
         self.prop = prop
         self.fn = fn
@@ -37,9 +41,9 @@ class Task:
 REGISTRY = {}
 
 
-def task(name, prop, functions=(), expect=(), twin=None, covers=(), assumptions=(), bounded=None):
+def task(name, prop, functions=(), expect=(), twin=None, covers=(), assumptions=(), bounded=None, path_cap=None, timeout_s=None, fork=False):
     def deco(fn):
-        t = Task(name, prop, fn, functions, expect, twin, covers, assumptions, bounded=bounded)
+        t = Task(name, prop, fn, functions, expect, twin, covers, assumptions, bounded=bounded, path_cap=path_cap, timeout_s=timeout_s, fork=fork)
         REGISTRY.setdefault(prop, []).append(t)
         return fn
     return deco
@@ -70,17 +74,47 @@ def explore_task(modname, taskname):
     assumptions = set(tk.assumptions)
     error = None
     fps = []
+    from . import world as _world
+    FORK = _world.FORK
+    cur = {"w": None}
+    if tk.fork and os.environ.get("PYVC_NO_FORK") != "1":
+        import shutil
+        fdir = f"/dev/shm/pyvc-{os.getpid()}-{taskname}"
+        shutil.rmtree(fdir, ignore_errors=True)
+        FORK.start(fdir)
+        import gc
+        gc.freeze()
+
+        def in_child():
+            # a fresh child owns nothing of what its ancestors recorded
+            del work[:]
+            del results[:]
+            covers.clear()
+            if cur["w"] is not None:
+                del cur["w"].results[:]
+            nonlocal_counts["paths"] = 0
+        nonlocal_counts = {"paths": 0}
+        FORK.on_child[:] = [in_child]
+
+    def flush_child():
+        rec = {"results": results, "covers": sorted(covers), "paths": npaths_box[0], "assumptions": sorted(assumptions), "error": error_box[0]}
+        FORK.append("results.jsonl", (json.dumps(rec, default=str) + "\n").encode())
+    npaths_box, error_box = [0], [None]
     try:
         for q in tk.functions:
             fps.append(P.function_fingerprint(q))
         while work:
             prefix = work.pop(0)      # breadth-first: short prefixes first, so co-inductive closure keeps re-executions short
             npaths += 1
-            if npaths > PATH_CAP:
-                raise EngineError(f"path cap {PATH_CAP} exceeded in task {taskname}")
-            if time.time() - t0 > TASK_TIMEOUT_S:
-                raise EngineError(f"task {taskname} exceeded its wall-clock budget of {TASK_TIMEOUT_S}s after {npaths} paths")
+            if FORK.enabled and FORK.is_child and nonlocal_counts["paths"] == 0:
+                npaths = 1
+                nonlocal_counts["paths"] = 1
+            if not FORK.enabled and npaths > (tk.path_cap or PATH_CAP):
+                raise EngineError(f"path cap {tk.path_cap or PATH_CAP} exceeded in task {taskname}")
+            if time.time() - t0 > (tk.timeout_s or TASK_TIMEOUT_S):
+                raise EngineError(f"task {taskname} exceeded its wall-clock budget of {tk.timeout_s or TASK_TIMEOUT_S}s after {npaths} paths")
             w = World(prefix, taskname)
+            cur["w"] = w
             w.kf_active = kf_active
             w.covered = covers
             I = Interp(P, w)
@@ -90,6 +124,10 @@ def explore_task(modname, taskname):
                 pass
             except PyRaise as pr:
                 raise EngineError(f"harness let an object-language exception escape: {pr.exc!r} args={getattr(pr.exc, 'attrs', {}).get('args')}")
+            if FORK.enabled and FORK.is_child and nonlocal_counts["paths"] == 0:
+                # first path end inside a fresh child: everything counted so far belonged to the ancestors
+                npaths = 1
+                nonlocal_counts["paths"] = 1
             for r in w.results:
                 results.append({"name": r.name, "status": r.status, "model": r.model, "time": r.time, "solver": r.solver,
                                 "path": r.path, "decisions": [[str(a), str(b)] for a, b in (r.detail or [])], "info": r.info})
@@ -97,8 +135,31 @@ def explore_task(modname, taskname):
             work.extend(w.ch.alts)
     except EngineError as e:
         error = f"EngineError: {e}"
+    except _world.ChildFailed as e:
+        error = f"EngineError: {e}"
     except Exception as e:  # engine bug
         error = "internal: " + "".join(traceback.format_exception(type(e), e, e.__traceback__))[-3000:]
+    if FORK.enabled:
+        npaths_box[0], error_box[0] = npaths, error
+        if FORK.is_child:
+            flush_child()
+            sys.stdout.flush()
+            sys.stderr.flush()
+            os._exit(3 if error else 0)
+        # root: merge what the children reported
+        import shutil
+        rp = os.path.join(FORK.dir, "results.jsonl")
+        if os.path.exists(rp):
+            for line in open(rp):
+                rec = json.loads(line)
+                results.extend(rec["results"])
+                covers |= set(rec["covers"])
+                npaths += rec["paths"]
+                assumptions |= set(rec["assumptions"])
+                if rec["error"] and not (error and "child exited" not in error):
+                    error = rec["error"]
+        shutil.rmtree(FORK.dir, ignore_errors=True)
+        FORK.enabled = False
     return {"task": taskname, "prop": prop, "paths": npaths, "results": results, "covers": sorted(covers),
             "error": error, "wall": time.time() - t0, "stats": dict(STATS), "functions": fps,
             "assumptions": sorted(assumptions), "bounded": tk.bounded, "twin": tk.twin, "expect": tk.expect, "need_covers": tk.covers,
